@@ -166,7 +166,7 @@ class ShorterResultsPlugin(Plugin):
 
             # Add all additional imports discovered when generating the client
             # method.
-            for additional_import in self.extended_imports[stmt.module]:
+            for additional_import in sorted(self.extended_imports[stmt.module]):
                 stmt.names.append(ast.alias(name=additional_import))
 
             # We delete the key if it already had an import from statement so we
@@ -180,7 +180,7 @@ class ShorterResultsPlugin(Plugin):
             module.body.insert(
                 0,
                 generate_import_from(
-                    names=list(alias),
+                    names=sorted(alias),
                     from_=import_from,
                 ),
             )
